@@ -68,6 +68,8 @@ def gen_kind(rng, lookups=False):
             x = rng.choice(INTS + ["z", "<cond>c"])
             sub = None
         rhs = g.bool_expr(2) if x.startswith("<cond>") else g.int_expr(3)
+        if lookups and sub is None and not x.startswith("<cond>") and rng.random() < 0.25:
+            rhs = g.objarr()
         if sub is None and not loops and rng.random() < 0.1:
             rhs = ["call", "<func>arr_k", [g.int_expr(1)], []]
             x = rng.choice(ARRS)
@@ -83,12 +85,18 @@ def gen_kind(rng, lookups=False):
         else:
             args = [g.int_expr(2) for _ in range(rng.randint(0, 3))]
         kw = [[nm, g.int_expr(1)] for nm in rng.sample(["k", "key", "kw2"], rng.randint(0, 2))]
+        if lookups and "len" not in f and rng.random() < 0.25:
+            if kw and rng.random() < 0.5:
+                kw[0][1] = g.objarr()
+            else:
+                args = args + [g.objarr()]
         if "arr" in f:
             xs = [rng.choice(ARRS)]
         return ["call", xs, f, args, kw]
     if c < 0.87:
         return ["yield", rng.choice(["y", "u"]), rng.choice(["final", "t1"]),
-                rng.choice([["var", "<t>"], g.int_expr(1)]), g.int_expr(3)]
+                rng.choice([["var", "<t>"], g.int_expr(1)]),
+                g.objarr() if lookups and rng.random() < 0.25 else g.int_expr(3)]
     return rng.choice([["fail"], ["raise", "ValueError"], ["raise", "RuntimeError"], ["switch", "p2"], ["nop"]])
 
 
@@ -274,7 +282,8 @@ def where(kind, variables):
 
 
 def has_lookup(c):
-    return '"lookup"' in json.dumps([c[1], c[2]])
+    t = json.dumps([c[1], c[2]])
+    return '"lookup"' in t or '"nparr"' in t
 
 
 def in_model_universe(store, r):
